@@ -106,6 +106,7 @@ package vbft
 //@   modifies *
 //@   ensures[c41-one-vote-per-endorser-and-proposer] has(pool.candidateBlocks, blkNum) && wfCand(pool.candidateBlocks[blkNum])
 //@   ensures forall b uint32 :: has(pool.candidateBlocks, b) ==> pool.candidateBlocks[b] != nil
+//@   ensures pool.candidateBlocks == old(pool.candidateBlocks)
 //@   ensures forall b uint32 :: b != blkNum ==> (has(pool.candidateBlocks, b) <==> old(has(pool.candidateBlocks, b))) && pool.candidateBlocks[b] == old(pool.candidateBlocks[b])
 //@   ensures old(has(pool.candidateBlocks, blkNum)) ==> pool.candidateBlocks[blkNum] == old(pool.candidateBlocks[blkNum]) && pool.candidateBlocks[blkNum].CommitMsgs == old(pool.candidateBlocks[blkNum].CommitMsgs)
 //@   loop 1 invariant forall j int :: 0 <= j && j < it1 ==> !eSigs[j].ForEmpty
@@ -113,9 +114,9 @@ package vbft
 //@   assert after "candidate.EndorseSigs[endorser] = append(eSigs, eSig)" : wfCand(candidate)
 //@   assert after "candidate.EndorseSigs[endorser] = []*CandidateEndorseSigInfo{eSig}" : wfCand(candidate)
 
-// Endorsement quorum: the tallies are compared with ghost tallies that count an endorser at most once per endorsed
-// proposer (gcnt) and at most once for the empty block (gempty), whatever its list holds; with well-formed lists the
-// two agree, and the round is reported endorsed only when such a tally exceeds C.
+// Endorsement quorum: every participant (endorser index) counts at most once for the empty block and at most once
+// for a proposer (its list holds at most one such entry each), so no tally exceeds the number of participants
+// visited; the round is reported endorsed only when a tally exceeds C.
 //@ func (*BlockPool).endorseDone
 //@   property C41
 //@   mode abstract
@@ -123,16 +124,15 @@ package vbft
 //@   requires pool != nil && !isnil(pool.candidateBlocks)
 //@   requires has(pool.candidateBlocks, blkNum) ==> wfCand(pool.candidateBlocks[blkNum])
 //@   modifies nothing
-//@   ghost var g0 ArrU64U32
-//@   ghost var gcnt ArrU64U32
-//@   ghost var gempty int = 0
-//@   set before "candidate := pool.candidateBlocks[blkNum]" : gcnt := g0
-//@   set before "endorseCount[esig.EndorsedProposer] += 1" : gcnt := upd(gcnt, uint64(esig.EndorsedProposer), gcnt[uint64(esig.EndorsedProposer)] + ite(exists j int :: 0 <= j && j < it2 && !eSigs[j].ForEmpty && eSigs[j].EndorsedProposer == esig.EndorsedProposer, uint32(0), uint32(1)))
-//@   set before "emptyEndorseCount++" : gempty := gempty + ite(exists j int :: 0 <= j && j < it2 && eSigs[j].ForEmpty, 0, 1)
-//@   loop 1 invariant !isnil(endorseCount) && candidate != nil && wfCand(candidate) && emptyEndorseCount == gempty && forall p uint32 :: endorseCount[p] == gcnt[uint64(p)] - g0[uint64(p)]
-//@   loop 2 invariant !isnil(endorseCount) && candidate != nil && wfCand(candidate) && wfSigs(eSigs) && emptyEndorseCount == gempty && forall p uint32 :: endorseCount[p] == gcnt[uint64(p)] - g0[uint64(p)]
-//@   assert[c41-endorsed-needs-more-than-c] before "return esig.EndorsedProposer, false, true" : gcnt[uint64(esig.EndorsedProposer)] - g0[uint64(esig.EndorsedProposer)] > C
-//@   assert[c41-empty-needs-more-than-c] before "return esig.EndorsedProposer, true, true" : gempty > int(C)
+//@   snapshot si before loop 2
+//@   loop 1 invariant !isnil(endorseCount) && candidate != nil && wfCand(candidate)
+//@   loop 1 invariant[c41-one-empty-vote-per-participant] emptyEndorseCount <= it1
+//@   loop 1 invariant[c41-one-vote-per-participant-and-proposer] forall p uint32 :: int(endorseCount[p]) <= it1
+//@   loop 2 invariant !isnil(endorseCount) && candidate != nil && wfCand(candidate) && wfSigs(eSigs)
+//@   loop 2 invariant emptyEndorseCount <= at(si, emptyEndorseCount) + 1 && (emptyEndorseCount == at(si, emptyEndorseCount) + 1 ==> exists j int :: 0 <= j && j < it2 && eSigs[j].ForEmpty) && at(si, emptyEndorseCount) <= it1
+//@   loop 2 invariant forall p uint32 :: int(endorseCount[p]) <= int(at(si, endorseCount[p])) + 1 && (int(endorseCount[p]) == int(at(si, endorseCount[p])) + 1 ==> exists j int :: 0 <= j && j < it2 && !eSigs[j].ForEmpty && eSigs[j].EndorsedProposer == p) && int(at(si, endorseCount[p])) <= it1
+//@   assert[c41-endorsed-needs-more-than-c] before "return esig.EndorsedProposer, false, true" : endorseCount[esig.EndorsedProposer] > C
+//@   assert[c41-empty-needs-more-than-c] before "return esig.EndorsedProposer, true, true" : emptyEndorseCount > int(C)
 //@   ensures[c41-not-endorsed-without-quorum] !has(pool.candidateBlocks, blkNum) ==> !r2
 
 //@ func (*blockEndorseMsg).GetBlockNum
@@ -158,6 +158,7 @@ package vbft
 //@   requires pool != nil && !isnil(pool.candidateBlocks) && msg != nil
 //@   requires forall b uint32 :: has(pool.candidateBlocks, b) ==> pool.candidateBlocks[b] != nil && wfCand(pool.candidateBlocks[b])
 //@   modifies *
+//@   assert after "candidate := pool.getCandidateInfoLocked(blkNum)" : wfCand(candidate)
 //@   loop 1 invariant candidate != nil && forall j int :: 0 <= j && j < it1 ==> candidate.CommitMsgs[j] != nil ==> candidate.CommitMsgs[j].Committer != msg.Committer
 //@   loop 2 invariant pool != nil && !isnil(pool.candidateBlocks) && msg != nil && (forall b uint32 :: has(pool.candidateBlocks, b) ==> pool.candidateBlocks[b] != nil) && has(pool.candidateBlocks, blkNum) && wfCand(pool.candidateBlocks[blkNum])
 //@   assert[c41-one-commit-per-committer] before loop 2 : forall j int :: 0 <= j && j < len(candidate.CommitMsgs) ==> candidate.CommitMsgs[j] != nil ==> candidate.CommitMsgs[j].Committer != msg.Committer
